@@ -74,7 +74,7 @@ PROPS = {
     "C08": {
         "level_text": "Lean theorems C08_paused_no_update_delete, C08_frozen_nothing, C08_resume, C08_sync, C08_flags, C08_paused_not_promoted, C08_validate_overrides_pause, C08_pause_sources, C08_state, C08_canary_state for every counter state / annotation map / replica-set status, about the models of ManageDeployment, selectCurrentReplicaSet, nonCanaryState and manageStatus; canary-side clauses (no creation while paused or failed, resume on unpause incl. the zero-pod case) are proved in EdsProps/C06. Tied by the manage_deployment, manage_canary and select_current streams over every annotation value (absent, true, false, junk) and rollout state.",
         "level_note": TB + "Modelled by hand: ManageDeployment, manageCanaryStatus, selectCurrentReplicaSet, manageStatus. Toggling histories across reconciles are covered by the scenario streams when registered.",
-        "streams": [("manage_deployment", 1500, 30000), ("manage_canary", 2500, 50000), ("select_current", 2000, 40000)],
+        "streams": [("manage_deployment", 1500, 30000), ("manage_canary", 2500, 50000), ("select_current", 2000, 40000), ("ers_reconcile", 1500, 30000)],
         "extra_theorems": [("EdsProofs.FactsBridge", "facts_keys"), ("EdsProofs.FactsBridge", "facts_states"), ("EdsProps.C06", "C08_")],
         "trusted_base": ["hand-written models of ManageDeployment / manageCanaryStatus / selectCurrentReplicaSet / manageStatus tied by three function streams"],
         "assumptions": COMMON_ASSUME,
@@ -109,7 +109,7 @@ PROPS = {
         "extra_theorems": [("EdsProps.C15b", "C15_")],
         "level_text": "Metamorphic theorem C15_invalid_previous_irrelevant (+ _of_nodup, C15_kept_eq_filter_iff, C15_kept_count; EdsProps/C15b): a previously selected node that is listed but no longer fit has no influence on the outcome -- selectNodes equals selectNodes on the list without such names (needs only that no such name occurs more often in the list than there are such nodes, e.g. a duplicate-free list; the counterexample without it is proved as C15_invalid_previous_needs_hyp); evaluated on the real selectNodes as clause C15.invalid-previous-irrelevant. Lean theorems about the model of selectNodes: C15_distinct, C15_new_valid, C15_removed_only_unfit / C15_kept_prefix / C15_keep_order / C15_keep (still-valid nodes kept in order, additions after them), C15_short_iff / C15_never_exceeds / C15_reaches_request / C15_count (error iff short, never beyond the request through the controller's own choice), C15_percent / C15_request_resolved_against_targeted, C15_error_if_short / C15_reconcile_error (the reconcile returns an error and writes no status), C15_all_valid_if_listed (the complement of known finding F6a), C15_least_restarts (every added node has no more restarts than any listed fit node left out), C15_spread (anti-affinity quota) for every node population, pod restart history, replicas value, node selector, anti-affinity keys and previously selected list; the real selectNodes runs against a fake API server holding the nodes and pods and its result is compared with the model's and with the specification clauses (distinct, new-valid, keep, count, all-valid).",
         "level_note": TB + "Modelled by hand: selectNodes (restart-ordered candidates, anti-affinity quota, fitness). Go's sort.Slice is an insertion sort (stable) for <= 12 elements, which is what the stream uses; larger populations are compared up to the specification clauses only. The trigger (when the EDS reconcile calls selectNodes) is covered by the eds_reconcile stream.",
-        "streams": [("select_nodes", 3000, 60000), ("fitness", 1000, 20000), ("scenario", 30, 800)],
+        "streams": [("select_nodes", 3000, 60000), ("fitness", 1000, 20000), ("scenario", 30, 800), ("eds_reconcile", 2000, 30000)],
         "trusted_base": ["hand-written model of selectNodes tied by the select_nodes stream; label-selector conversion re-implemented in the model"],
         "assumptions": COMMON_ASSUME + ["node names are unique (API server)"],
     },
